@@ -41,7 +41,8 @@ Record tconn := {
 Inductive tevent :=
 | TConn (c : tconn)
 | TDrop (s : sid)
-| TImport (s : sid) (e : sentry).
+| TImport (s : sid) (e : sentry)
+| TClient (s : sid) (e : sentry).
 
 Fixpoint map_opt {A B} (f : A -> option B) (l : list A) : option (list B) :=
   match l with
@@ -68,6 +69,7 @@ Definition event_of (tabs : list tsrv) (e : tevent) : option event :=
   | TConn c => match conn_of tabs c with Some cn => Some (EConn cn) | None => None end
   | TDrop s => Some (EDrop s)
   | TImport s e => Some (EImport s e)
+  | TClient s e => Some (EClientRecord s e)
   end.
 
 (* ---- observations ----------------------------------------------------------- *)
